@@ -175,6 +175,12 @@ def in_context(ctx, text, env):
         src = pre + f".dl {text}\n"
     elif ctx == "operand":
         src = pre + f"lda.w #{text}\n"
+    elif ctx == "operand-long":
+        src = pre + f"lda.l {text}\n"
+    elif ctx == "operand-plain":
+        src = pre + f"lda {text}\n"
+    elif ctx == "operand-indexed":
+        src = pre + f"lda {text},x\n"
     elif ctx == "macro":
         src = pre + f".macro mm(pp) {{\n.dl pp\n}}\nmm({text})\n"
     elif ctx == "if":
@@ -197,6 +203,11 @@ def in_context(ctx, text, env):
         return ("ok", int.from_bytes(data[:3], "little"), 1 << 24)
     if ctx == "operand":
         return ("ok", int.from_bytes(data[1:3], "little"), 1 << 16)
+    if ctx == "operand-long":
+        return ("ok", int.from_bytes(data[1:4], "little"), 1 << 24)
+    if ctx in ("operand-plain", "operand-indexed"):
+        # inferred width: opcode + 1..3 operand bytes; the value is read back from exactly those bytes
+        return ("ok", int.from_bytes(data[1:], "little"), None)
     if ctx == "if":
         return ("ok", 1 if data == b"\x01" else 0, "bool")
 
@@ -228,6 +239,13 @@ def run(ctx):
             cases.append(("bin", b, ("bin", a, ("un", u, x), y), z) if LEVEL[a] <= LEVEL[b] else ("bin", a, ("un", u, x), ("bin", b, y, z)))
             cases.append(("bin", b, ("bin", a, x, ("un", u, y)), z) if LEVEL[a] <= LEVEL[b] else ("bin", a, x, ("bin", b, ("un", u, y), z)))
             cases.append(("bin", a, x, ("un", u, ("un", "-" if u == "~" else "~", y))))
+    # groups whose first and last tokens are parentheses that do not match each other, next to a tighter operator
+    for a, b in itertools.product(ops3, ops3):
+        inner = ("bin", a, ("paren", ("bin", "+", lit(rng, 1), lit(rng, 2))), ("paren", ("bin", "+", lit(rng, 3), lit(rng, 4))))
+        cases.append(("bin", b, lit(rng, 7), ("paren", inner)))
+        cases.append(("bin", b, ("paren", inner), lit(rng, 3)))
+        cases.append(("bin", b, lit(rng, 0x100), ("paren", ("bin", a, ("paren", ("var", "va")), ("paren", ("var", "vb"))))))
+        cases.append(("paren", ("paren", inner)))
     if tier == "thorough":
         for a, b, c in itertools.product(ops3, ops3, ops3):
             w, x, y, z = lit(rng, 13), lit(rng, 5), lit(rng, 3), lit(rng, 2)
@@ -255,7 +273,7 @@ def run(ctx):
             real_vals.append("err parse:" + type(e).__name__)
         toks_list.append(toks)
         ops_model.append("evalt " + env_desc(env) + " " + " ".join(toks) if toks else "evalt - N:0")
-    model = drv.ask(ops_model)
+    model = drv.ask(ops_model, soft_timeout=40)
     for t, text, sp, pr, rv, toks, m_ in zip(cases, texts, spec, prints, real_vals, toks_list, model):
         s1.cases += 1
         s1.nontrivial.add(skeleton(t))
@@ -279,16 +297,24 @@ def run(ctx):
 
     # --------------------------------------------------------------- contexts
     s2 = core.Stream("S3-contexts", "the same expression text through :=, =, .dl, lda.w #, macro argument, .if, .for bound (operators each context can lex), compared with Spec.eval (oracle) modulo the field width; non-trivial = distinct (context, operator set)")
-    ctxs = ["assign", "symbol", "dl", "operand", "macro", "if", "for"]
-    n2 = 210 if tier == "quick" else 2100
+    ctxs = ["assign", "symbol", "dl", "operand", "macro", "if", "for", "operand-long", "operand-plain", "operand-indexed"]
+    n2 = 300 if tier == "quick" else 3000
     for i in range(n2):
         c = ctxs[i % len(ctxs)]
-        ops = BOPS if c == "operand" else DIRECTIVE_OPS
-        unops = ["-", "~"] if c == "operand" else ["-"]
+        ops = BOPS if c.startswith("operand") else DIRECTIVE_OPS
+        unops = ["-", "~"] if c.startswith("operand") else ["-"]
         t = gen_tree(rng, rng.randrange(1, 5), {"va": 5, "vb": 3, "zed": 0x1234} if c != "for" else {"va": 5}, ops, unops)
         if c == "macro":
             t = strip_outer_for_macro(t)
         text = render(t, rng)
+        if c in ("operand-long", "operand-plain", "operand-indexed"):
+            # a leading parenthesised group followed by an operator is still a plain operand; a text that is one
+            # parenthesised group as a whole is the indirect form and is left out
+            if i % 3 == 0 and not text.lstrip().startswith("("):
+                t = ("bin", rng.choice(["|", "+", "*", "&"]), ("paren", t), lit(rng, rng.randrange(1, 9)))
+                text = render(t, rng)
+            if whole_group(text):
+                continue
         e2 = {"va": 5, "vb": 3, "zed": 0x1234}
         sp = drv.ask([f"spec.eval {env_desc(e2)} " + " ".join(prefix(t))])[0].split()
         got = in_context(c, text, e2)
@@ -304,8 +330,10 @@ def run(ctx):
             if c in ("dl", "macro") or (c == "operand"):
                 pass
             # rejection is a violation only where nothing else can explain it: := / = accept every integer
-            if c in ("assign", "symbol", "if"):
+            if c in ("assign", "symbol", "if") or (c in ("operand-plain", "operand-indexed", "operand-long") and 0 <= v < (1 << 24)):
                 s2.violate({"context": c, "text": text}, v, got, "expression with a defined conventional value is rejected in this context")
+            continue
+        if c in ("operand-plain", "operand-indexed") and not 0 <= v < (1 << 24):
             continue
         mod = got[2]
         exp = (1 if v != 0 else 0) if mod == "bool" else v if mod is None else v % mod
@@ -330,7 +358,7 @@ def run(ctx):
     # neither side is asked to build astronomically large integers: token lists in which a shift count could
     # exceed 4096 are dropped (checked by a guarded evaluation of the real shunting-yard output)
     lists = [l for l in lists if not huge_shift(l)]
-    model = drv.ask(["evalt va=5,blk=! " + " ".join(l) for l in lists])
+    model = drv.ask(["evalt va=5,blk=! " + " ".join(l) for l in lists], soft_timeout=40)
     for l, m_ in zip(lists, model):
         from a816.parse.ast.nodes import BlockAstNode
         from a816.parse.ast.expression import eval_expression
@@ -407,6 +435,20 @@ def run(ctx):
     finally:
         run_.close()
     return [s1, s2, s3, s4, s5, s6]
+
+
+def whole_group(text):
+    """the text is one parenthesised group (its first parenthesis closes at the very end)"""
+    t = text.strip()
+    if not t.startswith("("):
+        return False
+    d = 0
+    for i, ch in enumerate(t):
+        d += ch == "("
+        d -= ch == ")"
+        if d == 0:
+            return i == len(t) - 1
+    return False
 
 
 def huge_shift(toks):
